@@ -111,8 +111,18 @@ func VerifC01_Concurrent() {
 
 // VerifC07_Atomic: two concurrent Incr calls (solver-chosen entry members) on one key never lose an update: the final
 // value is the initial value plus both deltas and the two returned values are those of one of the two serial orders.
-func VerifC07_Atomic() {
+func VerifC07_Atomic() { vpAtomicScript(false) }
+
+// VerifC04_MirrorConcurrent: the same two concurrent Incr calls with ReplicaCount 2: once both are acknowledged the
+// backup copy equals the primary copy (write timestamps are taken on entry, so the later-stamped write may be
+// applied first).
+func VerifC04_MirrorConcurrent() { vpAtomicScript(true) }
+
+func vpAtomicScript(mirror bool) {
 	replicas := 1 + vpChoose("replicas", 2)
+	if mirror {
+		replicas = 2
+	}
 	cl := vpTwoMembers(replicas, 0)
 	ctx := context.Background()
 	base := 0
@@ -124,10 +134,25 @@ func VerifC07_Atomic() {
 	dmA, dmB := vpDMap(cl.members[entA], "d"), vpDMap(cl.members[entB], "d")
 	var gotA, gotB int
 	var errA, errB error
-	vpGo(func() { gotA, errA = dmA.Incr(ctx, "n", 1) })
-	vpGo(func() { gotB, errB = dmB.Incr(ctx, "n", 5) })
+	// a caller may enter a millisecond after the other one (write timestamps are taken on entry, before the lock)
+	lateA, lateB := vpBool("lateA"), vpBool("lateB")
+	vpGo(func() {
+		if lateA {
+			vpSleepMs(1)
+		}
+		gotA, errA = dmA.Incr(ctx, "n", 1)
+	})
+	vpGo(func() {
+		if lateB {
+			vpSleepMs(1)
+		}
+		gotB, errB = dmB.Incr(ctx, "n", 5)
+	})
 	vpJoin()
 	vpAssert(errA == nil && errB == nil, "incr-succeeds")
+	if replicas == 2 && mirror {
+		vpCheckMirror(cl, "d", "n")
+	}
 	fin, err := vpDMap(cl.members[0], "d").Incr(ctx, "n", 0)
 	vpAssert(err == nil && fin == base+6, "no-increment-is-lost")
 	ab := gotA == base+1 && gotB == base+6
